@@ -79,6 +79,9 @@ func VerifNativeRun(f func()) (failed []string, panicked interface{}) {
 				}
 			}
 		}()
+		if vSchedStartHook != nil {
+			vSchedStartHook() // schedule replay: this goroutine is the harness main goroutine
+		}
 		f()
 	}()
 	start := time.Now()
@@ -105,6 +108,9 @@ wait:
 			defer vMu.Unlock()
 			return append([]string{}, vFailed...), "native run did not finish within 60 s"
 		}
+	}
+	if vSchedEndHook != nil {
+		vSchedEndHook() // schedule replay: let the controller print its report
 	}
 	vMu.Lock()
 	defer vMu.Unlock()
@@ -280,6 +286,9 @@ func vConcrete(x int) int { return x }
 // vQuiescent: wait until the goroutine population is stable ("everything that can happen
 // without the environment has happened").
 func vQuiescent() {
+	if vYieldHook != nil && vYieldHook(1) {
+		return // schedule replay: granted by the controller when the engine's schedule says so
+	}
 	stable := 0
 	last := ""
 	deadline := time.Now().Add(3 * time.Second)
@@ -334,7 +343,18 @@ func vYield()       { runtime.Gosched() }
 func vEnvTick() <-chan struct{} { return nil }
 
 // vAtomic / vAtomicEnd delimit a section the engine executes as one transition.
-func vAtomic(kind int, objs ...interface{}) {}
+func vAtomic(kind int, objs ...interface{}) {
+	if vYieldHook != nil {
+		vYieldHook(1)
+	}
+}
+
+// hooks of the native schedule replay (zz_verif_sched.go, native builds only)
+var (
+	vSchedStartHook func() bool
+	vSchedEndHook   func()
+	vYieldHook      func(skip int) bool
+)
 func vAtomicEnd()                           {}
 
 // vLiveGoroutines counts live goroutines created by functions of packages with the prefix
